@@ -41,6 +41,8 @@ pub(super) fn generate_enum_definitions<'a, 'schema: 'a>(
                 let name = normalization.enum_variant(safe_name.as_ref());
                 // Normalization can turn the escaped name back into a keyword (`self_` -> `Self`).
                 let name = super::shared::keyword_replace(name);
+                // A value spelled like the catch-all variant is kept apart from it.
+                let name = if name == "Other" { "Other_".into() } else { name };
                 let name = Ident::new(&name, Span::call_site());
 
                 quote!(#name)
@@ -56,6 +58,7 @@ pub(super) fn generate_enum_definitions<'a, 'schema: 'a>(
                 let safe_name = super::shared::keyword_replace(v);
                 let name = normalization.enum_variant(safe_name.as_ref());
                 let name = super::shared::keyword_replace(name);
+                let name = if name == "Other" { "Other_".into() } else { name };
                 let v = Ident::new(&name, Span::call_site());
 
                 quote!(#name_ident::#v)
